@@ -61,7 +61,7 @@ def slot_worker(slot, ids):
         else:
             meta["cross"] = cross
         json.dump(meta, open(mp, "w"), indent=1)
-        print(sid, "fired:", [c for c in CHECKS if cross[c]["violations"]], flush=True)
+        print(sid, "fired:", [c for c in cross if cross[c]["violations"]], flush=True)
     sh(["git", "-C", "/repo", "worktree", "remove", "--force", wt])
 
 
